@@ -257,6 +257,9 @@ class Ctx:
             self.violations.append(dict(clause=clause, cls=cls, detail=detail, vector=vector))
         return False
 
+    def has_violations(self):
+        return any(c['bad'] for c in self.clauses.values())
+
     def add_sample(self, s):
         if len(self.samples) < 12:
             self.samples.append(_jsonable(s))
